@@ -93,7 +93,117 @@ fn check_matrix(r: usize, n: usize, mask: u64, acc: &mut Acc) {
     }
 }
 
+/// Large matrices (more than a handful of rows): reference rank by big bit-set elimination.
+fn check_big(name: &str, h: &ldpc_toolbox::sparse::SparseMatrix, acc: &mut Acc) {
+    use crate::mats::Big;
+    acc.evals += 1;
+    let (r, n) = (h.num_rows(), h.num_cols());
+    let key = format!("systematic:big:{}", name);
+    let replay = json!({"kind": "big", "name": name});
+    let rank = Big::from_sparse(h).rank();
+    match guard(|| parity_to_systematic(h)) {
+        Err(e) => acc.violate(key, format!("panicked: {} (reference rank {} of {})", e, rank, r), replay),
+        Ok(Err(Error::NotFullRank)) => {
+            acc.count("big_not_full_rank");
+            if rank == r {
+                acc.violate(key, format!("NotFullRank returned for a full-rank {}x{} matrix", r, n), replay);
+            }
+        }
+        Ok(Err(e)) => acc.violate(key, format!("unexpected error {:?}", e), replay),
+        Ok(Ok(out)) => {
+            if rank < r {
+                acc.violate(key, format!("Ok returned for a {}x{} matrix of rank {}", r, n, rank), replay);
+                return;
+            }
+            acc.nontrivial += 1;
+            let cols = |m: &ldpc_toolbox::sparse::SparseMatrix| -> Vec<Vec<usize>> {
+                let mut v: Vec<Vec<usize>> = (0..m.num_cols())
+                    .map(|j| {
+                        let mut c: Vec<usize> = m.iter_col(j).cloned().collect();
+                        c.sort_unstable();
+                        c
+                    })
+                    .collect();
+                v.sort();
+                v
+            };
+            if out.num_rows() != r || out.num_cols() != n || cols(&out) != cols(h) {
+                acc.violate(key, "columns of the result are not a permutation of the input's".into(), replay);
+                return;
+            }
+            if Big::from_sparse_cols(&out, n - r).rank() != r {
+                acc.violate(key, format!("last {} columns of the result are singular", r), replay);
+                return;
+            }
+            match guard(|| Encoder::from_h(&out)) {
+                Ok(Ok(_)) => {}
+                other => acc.violate(key, format!("Encoder::from_h rejects the result: {:?}", other.map(|r| r.map(|_| ()))), replay),
+            }
+        }
+    }
+}
+
+/// Deterministic families with many rows: [J-I | I], [I | J-I], banded, and pseudo-random dense.
+fn big_families(thorough: bool) -> Vec<(String, ldpc_toolbox::sparse::SparseMatrix)> {
+    use ldpc_toolbox::sparse::SparseMatrix;
+    let mut out = Vec::new();
+    let rmax = if thorough { 64 } else { 40 };
+    for r in (6..=rmax).step_by(if thorough { 1 } else { 3 }).chain([15, 16, 17, 31, 32, 33].into_iter().filter(|&x| x <= rmax)) {
+        // all-ones minus identity next to an identity (dense fill-in during elimination)
+        let mut a = SparseMatrix::new(r, 2 * r);
+        let mut b = SparseMatrix::new(r, 2 * r);
+        for i in 0..r {
+            for j in 0..r {
+                if i != j {
+                    a.insert(i, j);
+                    b.insert(i, r + j);
+                }
+            }
+            a.insert(i, r + i);
+            b.insert(i, i);
+        }
+        out.push((format!("J-I|I:{}", r), a.clone()));
+        out.push((format!("I|J-I:{}", r), b));
+        // the same with the last row replaced by the sum of the first two (rank deficient)
+        let mut d = a.clone();
+        d.clear_row(r - 1);
+        let cols: Vec<usize> = (0..2 * r).filter(|&c| a.contains(0, c) != a.contains(1, c)).collect();
+        d.insert_row(r - 1, cols.iter());
+        out.push((format!("J-I|I:rank-deficient:{}", r), d));
+        // pseudo-random dense r x 2r (xorshift), two streams
+        for stream in 0..2u64 {
+            let mut x = 0x9E37_79B9_7F4A_7C15u64 ^ (r as u64 * 1_000_003 + stream);
+            let mut m = SparseMatrix::new(r, 2 * r);
+            for i in 0..r {
+                for j in 0..2 * r {
+                    x ^= x << 13;
+                    x ^= x >> 7;
+                    x ^= x << 17;
+                    if x & 1 == 1 {
+                        m.insert(i, j);
+                    }
+                }
+            }
+            out.push((format!("dense:{}:{}", r, stream), m));
+        }
+    }
+    out
+}
+
+pub fn big_families_pub(thorough: bool) -> Vec<(String, ldpc_toolbox::sparse::SparseMatrix)> {
+    big_families(thorough)
+}
+
 fn replay_element(v: &Value, acc: &mut Acc) {
+    if v["kind"] == "big" {
+        let name = v["name"].as_str().unwrap_or("");
+        for (n, h) in big_families(true) {
+            if n == name {
+                check_big(&n, &h, acc);
+            }
+        }
+        return;
+    }
     check_matrix(v["r"].as_u64().unwrap() as usize, v["n"].as_u64().unwrap() as usize, v["mask"].as_u64().unwrap(), acc)
 }
 
@@ -117,12 +227,15 @@ pub fn run(run: &Run) -> i32 {
             let a = par_fold(1u64 << (r * n), |mask, a| check_matrix(r, n, mask, a));
             acc = acc.merge(a);
         }
+        let fam = big_families(run.thorough());
+        let a = par_items(&fam, |(n, h), a| check_big(n, h, a));
+        acc = acc.merge(a);
     }
     finish(
         run,
         acc,
         Coverage {
-            rule: "every binary matrix of every listed shape r x n (all 2^(r*n) masks, duplicate-free); reference rank / invertibility by independent bit-set elimination. Non-trivial = full-rank input (conversion really performed); rank-deficient inputs are counted separately.".into(),
+            rule: "every binary matrix of every listed shape r x n (all 2^(r*n) masks, duplicate-free); reference rank / invertibility by independent bit-set elimination; plus deterministic families with many rows ([J-I | I], [I | J-I], their rank-deficient variants and pseudo-random dense r x 2r matrices for r up to 40 (64)). Non-trivial = full-rank input (conversion really performed); rank-deficient inputs are counted separately.".into(),
             exhaustive: true,
             extra: serde_json::Map::new(),
             graph: None,
